@@ -1188,3 +1188,172 @@ Proof.
   - intros [key [Hpk Hget]]. right. exists key, name. split; auto.
     apply prefix_entries_in; auto. eapply store_key_bytes; eauto.
 Qed.
+
+(* ------------------------------------------------------------------ invariants along every op sequence *)
+Definition obwf (ob : option batch) : Prop := match ob with Some b => batch_wf b | None => True end.
+
+Lemma delete_committed_wf : forall ents b, batch_wf b -> batch_wf (delete_committed b ents).
+Proof.
+  induction ents as [|[key v] ents IH]; intros b Hb; cbn [delete_committed]; auto.
+  destruct (snd (batch_get b key)); apply IH; auto using batch_wf_delete.
+Qed.
+Lemma delete_keys_wf : forall keys b, batch_wf b -> batch_wf (delete_keys b keys).
+Proof.
+  unfold delete_keys. induction keys as [|k keys IH]; intros b Hb; cbn [fold_left]; auto using batch_wf_delete.
+Qed.
+Lemma clear_kv_wf : forall s b path, batch_wf b -> batch_wf (clear_kv s b path).
+Proof. intros. unfold clear_kv. apply delete_keys_wf. apply delete_committed_wf. assumption. Qed.
+Lemma create_index_wf : forall s b key name h, batch_wf b -> batch_wf (snd (create_index s b key name h)).
+Proof.
+  intros s b key name h Hb. unfold create_index. destruct (s_get key s); [destruct (snd (batch_get b key))|]; cbn [snd];
+    auto using batch_wf_put.
+Qed.
+Lemma create_top_level_wf : forall s b name, batch_wf b -> batch_wf (snd (create_top_level s b name)).
+Proof.
+  intros s b name Hb. unfold create_top_level. destruct (negb (is_valid_bucket_name name)); cbn [snd]; auto using create_index_wf.
+Qed.
+Lemma new_bucket_wf : forall s ob h name, obwf ob -> obwf (snd (new_bucket s ob h name)).
+Proof.
+  intros s ob h name Hb. unfold new_bucket. destruct ob as [b|]; cbn [snd]; auto.
+  destruct (sub_bucket h name) as [sub|e]; cbn [snd]; auto.
+  pose proof (create_index_wf s b (index_key (h_path sub)) name sub Hb) as H.
+  destruct (create_index s b (index_key (h_path sub)) name sub) as [r b']. cbn [snd] in *. exact H.
+Qed.
+Lemma fold_left_snd_inv {A B C} : forall (P : B -> Prop) (step : A * B -> C -> A * B) l init,
+  (forall acc x, P (snd acc) -> P (snd (step acc x))) -> P (snd init) -> P (snd (fold_left step l init)).
+Proof. intros P step l. induction l as [|x l IH]; intros init Hstep Hinit; cbn; auto. Qed.
+Lemma delete_rec_wf : forall fuel s b h, batch_wf b -> batch_wf (snd (delete_rec fuel s b h)).
+Proof.
+  induction fuel as [|fuel IH]; intros s b h Hb; cbn [delete_rec]; [exact Hb|].
+  destruct (h_depth h =? 1)%nat; [exact Hb|].
+  destruct (bucket_names s (Some b) h) as [subnames|e]; [|exact Hb].
+  match goal with |- context [fold_left ?st subnames (Ok tt, b)] =>
+    assert (Hf : batch_wf (snd (fold_left st subnames (Ok tt, b)))) end.
+  { apply (fold_left_snd_inv batch_wf); [|exact Hb].
+    intros [[u|e] b'] subname Hb'; cbn [snd] in *; auto.
+    destruct (bucket s (Some b') h subname); cbn [snd]; auto. }
+  match goal with |- context [fold_left ?st subnames (Ok tt, b)] => destruct (fold_left st subnames (Ok tt, b)) as [[u|e] b'] end;
+    cbn [snd] in *; auto using batch_wf_delete, clear_kv_wf.
+Qed.
+Lemma delete_bucket_wf : forall s ob h name, obwf ob -> obwf (snd (delete_bucket s ob h name)).
+Proof.
+  intros s ob h name Hb. unfold delete_bucket. destruct ob as [b|]; cbn [snd]; auto.
+  destruct (bucket s (Some b) h name) as [sub|]; cbn [snd]; auto.
+  pose proof (delete_rec_wf delete_fuel s b sub Hb) as H. destruct (delete_rec delete_fuel s b sub) as [r b']. exact H.
+Qed.
+Lemma bucket_put_wf : forall ob h k v, obwf ob -> obwf (snd (bucket_put ob h k v)).
+Proof.
+  intros ob h k v Hb. unfold bucket_put. destruct ob as [b|]; cbn [snd]; auto.
+  destruct v; cbn [snd]; auto. destruct k; cbn [snd obwf]; auto using batch_wf_put.
+Qed.
+Lemma bucket_delete_wf : forall ob h k, obwf ob -> obwf (snd (bucket_delete ob h k)).
+Proof.
+  intros ob h k Hb. unfold bucket_delete. destruct ob as [b|]; cbn [snd]; auto.
+  destruct k; cbn [snd obwf]; auto using batch_wf_delete.
+Qed.
+Lemma clear_wf : forall s ob h, obwf ob -> obwf (snd (clear s ob h)).
+Proof. intros s ob h Hb. unfold clear. destruct ob as [b|]; cbn [snd obwf]; auto using clear_kv_wf. Qed.
+
+(* the invariant every reachable state satisfies: the store is key-sorted, the open batch's summary agrees with its log *)
+Definition inv (st : state) : Prop := keys_sorted (st_store st) /\ obwf (st_wtx st).
+Lemma inv_init : inv init_state.
+Proof. split; cbn; [constructor|exact I]. Qed.
+Lemma tx_view_wf : forall st w ob, inv st -> tx_view st w = Some ob -> obwf ob.
+Proof.
+  intros st w ob [_ H] E. unfold tx_view in E. destruct w.
+  - destruct (st_wtx st); inversion E; subst. exact H.
+  - destruct (st_rtx st); inversion E; subst. exact I.
+Qed.
+Lemma inv_store_batch : forall st w ob, inv st -> obwf ob -> inv (store_batch st w ob).
+Proof. intros st w ob [H1 H2] Hb. unfold store_batch. destruct w; [split; cbn; auto|split; auto]. Qed.
+
+Lemma step_inv : forall st o, inv st -> inv (fst (step st o)).
+Proof.
+  intros st o Hinv. pose proof Hinv as [Hs Hb].
+  destruct o; cbn [step].
+  - destruct w; [destruct (st_wtx st); cbn; auto; split; cbn; auto; apply batch_wf_empty|
+                 destruct (st_rtx st); cbn; auto; split; cbn; auto].
+  - destruct (st_wtx st) as [b|] eqn:E; [|exact Hinv]. destruct (st_upd st); [exact Hinv|].
+    split; cbn; auto. apply apply_log_sorted. exact Hs.
+  - destruct (st_wtx st) as [b|] eqn:E; [|exact Hinv]. destruct (st_upd st); [exact Hinv|]. split; cbn; auto.
+  - destruct (st_rtx st); [|exact Hinv]. split; cbn; auto.
+  - destruct (st_wtx st) as [b|] eqn:E; [exact Hinv|]. split; cbn; auto. apply batch_wf_empty.
+  - destruct (st_wtx st) as [b|] eqn:E; [|exact Hinv]. destruct (st_upd st); [|exact Hinv].
+    destruct fail; split; cbn; auto. apply apply_log_sorted. exact Hs.
+  - destruct (st_wtx st); [exact Hinv|]. destruct (st_rtx st); exact Hinv.
+  - exact Hinv.
+  - destruct (tx_view st w) as [ob|]; [|exact Hinv]. unfold put_handle.
+    destruct (top_level_bucket (st_store st) ob name); split; cbn; auto.
+  - destruct (st_wtx st) as [b|] eqn:E; [|exact Hinv]. cbn in Hb.
+    pose proof (create_top_level_wf (st_store st) b name Hb) as H.
+    destruct (create_top_level (st_store st) b name) as [[h|e] b']; cbn [snd] in H; split; cbn; auto.
+  - destruct (st_wtx st); exact Hinv.
+  - destruct (tx_view st w) as [ob|]; [|exact Hinv]. destruct (tx_bucket_names (st_store st) ob); exact Hinv.
+  - destruct (tx_view st w) as [ob|]; [|exact Hinv]. destruct (get_slot src (st_bs st)) as [[w' h]|]; [|exact Hinv].
+    unfold put_handle. destruct (fetch_bucket (st_store st) ob h); split; cbn; auto.
+  - destruct (get_slot src (st_bs st)) as [[w h]|]; [|exact Hinv].
+    destruct (tx_view st w) as [ob|] eqn:Ev; [|exact Hinv].
+    pose proof (new_bucket_wf (st_store st) ob h name (tx_view_wf _ _ _ Hinv Ev)) as H.
+    destruct (new_bucket (st_store st) ob h name) as [[sub|e] ob']; cbn [snd] in H.
+    + pose proof (inv_store_batch st w ob' Hinv H) as [H1 H2]. split; cbn; auto.
+    + apply inv_store_batch; auto.
+  - destruct (get_slot src (st_bs st)) as [[w h]|]; [|exact Hinv].
+    destruct (tx_view st w) as [ob|]; [|exact Hinv]. unfold put_handle.
+    destruct (bucket (st_store st) ob h name); split; cbn; auto.
+  - destruct (get_slot src (st_bs st)) as [[w h]|]; [|exact Hinv].
+    destruct (tx_view st w) as [ob|] eqn:Ev; [|exact Hinv].
+    pose proof (delete_bucket_wf (st_store st) ob h name (tx_view_wf _ _ _ Hinv Ev)) as H.
+    destruct (delete_bucket (st_store st) ob h name) as [r ob']; cbn [snd fst] in *. apply inv_store_batch; auto.
+  - destruct (get_slot src (st_bs st)) as [[w h]|]; [|exact Hinv].
+    destruct (tx_view st w) as [ob|]; [|exact Hinv]. destruct (bucket_names (st_store st) ob h); exact Hinv.
+  - destruct (get_slot src (st_bs st)) as [[w h]|]; [|exact Hinv].
+    destruct (tx_view st w) as [ob|] eqn:Ev; [|exact Hinv].
+    pose proof (bucket_put_wf ob h k v (tx_view_wf _ _ _ Hinv Ev)) as H.
+    destruct (bucket_put ob h k v) as [r ob']; cbn [snd fst] in *. apply inv_store_batch; auto.
+  - destruct (get_slot src (st_bs st)) as [[w h]|]; [|exact Hinv].
+    destruct (tx_view st w) as [ob|] eqn:Ev; [|exact Hinv].
+    pose proof (bucket_delete_wf ob h k (tx_view_wf _ _ _ Hinv Ev)) as H.
+    destruct (bucket_delete ob h k) as [r ob']; cbn [snd fst] in *. apply inv_store_batch; auto.
+  - destruct (get_slot src (st_bs st)) as [[w h]|]; [|exact Hinv].
+    destruct (tx_view st w) as [ob|]; [|exact Hinv]. destruct (bucket_get (st_store st) ob h k); exact Hinv.
+  - destruct (get_slot src (st_bs st)) as [[w h]|]; [|exact Hinv].
+    destruct (tx_view st w) as [ob|] eqn:Ev; [|exact Hinv].
+    pose proof (clear_wf (st_store st) ob h (tx_view_wf _ _ _ Hinv Ev)) as H.
+    destruct (clear (st_store st) ob h) as [r ob']; cbn [snd fst] in *. apply inv_store_batch; auto.
+  - destruct (get_slot src (st_bs st)) as [[w h]|]; [|exact Hinv].
+    destruct (tx_view st w) as [ob|]; exact Hinv.
+  - destruct (get_slot src (st_bs st)) as [[w h]|]; [|exact Hinv].
+    destruct (tx_view st w) as [ob|]; [|exact Hinv].
+    destruct (match mode with O => _ | S _ => _ end) as [a l]. split; cbn; auto.
+  - destruct (get_slot i (st_is st)) as [[w it]|]; [|exact Hinv]. destruct (iter_seek it k). split; cbn; auto.
+  - destruct (get_slot i (st_is st)) as [[w it]|]; [|exact Hinv]. destruct (iter_next it). split; cbn; auto.
+  - destruct (get_slot i (st_is st)) as [[w it]|]; [|exact Hinv]. split; cbn; auto.
+  - destruct (bytes_prefix p). exact Hinv.
+Qed.
+
+Definition run (ops : list op) : state := fold_left (fun st o => fst (step st o)) ops init_state.
+Lemma run_inv : forall ops, inv (run ops).
+Proof.
+  intros ops. unfold run. assert (H : forall st, inv st -> inv (fold_left (fun st o => fst (step st o)) ops st)).
+  { induction ops as [|o ops IH]; intros st Hst; cbn; auto using step_inv. }
+  apply H. apply inv_init.
+Qed.
+
+Lemma store_batch_store : forall st w ob, st_store (store_batch st w ob) = st_store st.
+Proof. intros st w ob. unfold store_batch. destruct w; reflexivity. Qed.
+
+(* the committed store changes at Commit (or a successful db.Update) only, and then by the whole log at once *)
+Lemma store_changes_only_at_commit : forall st o,
+  st_store (fst (step st o)) = st_store st \/
+  exists b, st_wtx st = Some b /\ (o = OCommit \/ o = OUEnd false) /\
+            st_store (fst (step st o)) = apply_log (st_store st) (b_log b).
+Proof.
+  intros st o. destruct o; cbn [step];
+  repeat match goal with
+         | |- context [match ?x with _ => _ end] => destruct x eqn:?
+         end; cbn; auto; try (left; apply store_batch_store);
+  try (unfold put_handle;
+       repeat match goal with |- context [match ?x with _ => _ end] => destruct x eqn:? end; cbn; auto; fail).
+  - right. eexists. split; [reflexivity|]. split; [left; reflexivity|reflexivity].
+  - right. eexists. split; [reflexivity|]. split; [right; reflexivity|reflexivity].
+Qed.
